@@ -81,23 +81,49 @@ def return_shape(prog, path):
 
 
 def ite_expr(fn, e, depth=0):
-    """Expand a local that is assigned once on each side of one boolean branch into ("ite", cond, e_true, e_false)."""
-    from . import guards, cfg
+    """Expand a local that is assigned on the arms of boolean branches and / or enum matches into nested
+    ("ite", cond, e_true, e_false) / ("case", subject, {variant: expr}) terms."""
+    from . import guards, cfg, patterns as pt
     if depth > 4 or not (isinstance(e, tuple) and e and e[0] == "local"):
         return e
     ds = [dd for dd in df.defs_of(fn).all(e[1]) if not fn.blocks[dd[1]]["cleanup"]]
-    if len(ds) != 2 or any(dd[0] not in ("stmt", "call") for dd in ds):
+    if len(ds) < 2 or len(ds) > 8 or any(dd[0] not in ("stmt", "call") for dd in ds):
         return e
 
     def dexpr(dd):
-        return df.rvalue_expr(fn, dd[3]["rv"]) if dd[0] == "stmt" else df.call_expr(fn, dd[2])
-    for g in guards.find_bool_guards(fn, lambda x: True):
-        tr, fr = cfg.dominated_by_edge(fn, g["true_edge"]), cfg.dominated_by_edge(fn, g["false_edge"])
-        a = [dd for dd in ds if dd[1] in tr]
-        b = [dd for dd in ds if dd[1] in fr]
-        if len(a) == 1 and len(b) == 1 and a[0] is not b[0]:
-            return ("ite", g["expr"], ite_expr(fn, dexpr(a[0]), depth + 1), ite_expr(fn, dexpr(b[0]), depth + 1))
-    return e
+        x = df.rvalue_expr(fn, dd[3]["rv"]) if dd[0] == "stmt" else df.call_expr(fn, dd[2])
+        return ite_expr(fn, x, depth + 1)
+    bguards = guards.find_bool_guards(fn, lambda x: True)
+    dsw = pt.discr_switches(fn, lambda ex, rv: True)
+
+    def build(group, lvl=0):
+        if len(group) == 1:
+            return dexpr(group[0])
+        if lvl > 4:
+            return None
+        for g in bguards:
+            tr, fr = cfg.dominated_by_edge(fn, g["true_edge"]), cfg.dominated_by_edge(fn, g["false_edge"])
+            a = [dd for dd in group if dd[1] in tr]
+            b = [dd for dd in group if dd[1] in fr]
+            if a and b and len(a) + len(b) == len(group):
+                x, y = build(a, lvl + 1), build(b, lvl + 1)
+                if x is not None and y is not None:
+                    return ("ite", g["expr"], x, y)
+        for sw in dsw:
+            parts, used = {}, 0
+            for var, edge in sw["edges"].items():
+                reg = cfg.dominated_by_edge(fn, edge)
+                sub = [dd for dd in group if dd[1] in reg]
+                if sub:
+                    parts[var] = sub
+                    used += len(sub)
+            if len(parts) >= 2 and used == len(group):
+                built = {var: build(sub, lvl + 1) for var, sub in parts.items()}
+                if all(v is not None for v in built.values()):
+                    return ("case", sw["expr"], tuple(sorted(built.items())))
+        return None
+    r = build(ds)
+    return r if r is not None else e
 
 
 class Model:
@@ -207,6 +233,14 @@ class Model:
             e2 = ite_expr(self.fn, e)
             if e2 != e:
                 return self.val(e2, env)
+        if k == "case":
+            for name, m in self.enumsyms:
+                if m(e[1]):
+                    self.used.add(name)
+                    for var, sub in e[2]:
+                        if var == env.get(name):
+                            return self.val(sub, env)
+            raise Unsupported("match on %s" % df.show(e[1], 60))
         if k == "ite":
             return self.val(e[2], env) if self.boolval(e[1], env) else self.val(e[3], env)
         if k == "field" and e[2] == 0 and isinstance(e[1], tuple) and e[1][0] == "bin" and e[1][1].endswith("WithOverflow"):
